@@ -387,7 +387,7 @@ fn rational_case() -> impl Strategy<Value = Case> {
 }
 
 pub fn run_check(ctx: &Ctx) {
-    ctx.set_rule("exhaustive: all 86 registry units (name -> Compound -> CBOR -> back; the id written by the code equals the id documented in tools/gen/data.toml; a CBOR value hand-built from the documented id decodes to the same unit; ids pairwise distinct; every identifier pinned in harness/data/ids_pinned.json — what data written by the pinned build contains — still decodes, to a unit with the same singular/plural name, equal to the unit its documented name parses to) and every shipped constant (decode, re-encode, decode, equal, byte-identical, unit ids inside the registry; and, looked up by its own words, the constant stored in the index equals the one in the file field by field, tokens included); every accepted vocabulary word (parse -> CBOR -> back); generated: compounds of 1-6 units with every SI prefix (plus the gram's bias) and powers -9..9 built from documented ids, the same compounds written by hand in another map-key order (must decode to an equal compound with identical display and canonical re-encoding), rationals up to 2000 bits through CBOR and JSON, constants; non-trivial = derived unit / compound with >=2 units incl. a derived one / rational with >64-bit numerator / constant; distinct by case");
+    ctx.set_rule("exhaustive: all 86 registry units (name -> Compound -> CBOR -> back; the id written by the code equals the id documented in tools/gen/data.toml; a CBOR value hand-built from the documented id decodes to the same unit; ids pairwise distinct; every identifier pinned in harness/data/ids_pinned.json — what data written by the pinned build contains — still decodes, to a unit with the same singular/plural name, equal to the unit its documented name parses to) every shipped source record (reachable by its id in a started database with the id, description and URL the file holds; CBOR round trip) and every shipped constant (decode, re-encode, decode, equal, byte-identical, unit ids inside the registry; and, looked up by its own words, the constant stored in the index equals the one in the file field by field, tokens included); every accepted vocabulary word (parse -> CBOR -> back); generated: compounds of 1-6 units with every SI prefix (plus the gram's bias) and powers -9..9 built from documented ids, the same compounds written by hand in another map-key order (must decode to an equal compound with identical display and canonical re-encoding), rationals up to 2000 bits through CBOR and JSON, constants; non-trivial = derived unit / compound with >=2 units incl. a derived one / rational with >64-bit numerator / constant; distinct by case");
     if std::env::var("VERIF_EMIT_PINS").is_ok() {
         emit_pins();
         std::process::exit(0);
@@ -411,6 +411,28 @@ pub fn run_check(ctx: &Ctx) {
     let typed = crate::facts::typed_constants().len();
     if typed != facts().all.len() {
         ctx.record_case("registry", CaseReport::fail("typed-stream-decode", "shipped-files-do-not-decode-from-a-stream", json!({"typed_constants": typed, "constants": facts().all.len()})), json!({"typed": typed}));
+    }
+    // the fourth shipped file: every source record is reachable by its id after decoding, unchanged, and
+    // survives a CBOR round trip of its own
+    {
+        let f = facts();
+        ctx.put("shipped_sources", json!(f.sources_full.len()));
+        let db = crate::tool::shared_db();
+        for (id, description, url) in &f.sources_full {
+            let rep = match db.get_source(*id) {
+                None => CaseReport::fail(format!("source {}", id), "shipped-source-lost", json!({"id": id, "description": description})),
+                Some(s) if s.id != *id || &*s.description != description.as_str() || s.url.as_deref() != url.as_deref() => CaseReport::fail(format!("source {}", id), "shipped-source-changed", json!({"id": id, "description": description, "got_id": s.id, "got_description": s.description})),
+                Some(s) => match serde_cbor::to_vec(s).map_err(|e| e.to_string()).and_then(|b| serde_cbor::from_slice::<anything::Source>(&b).map_err(|e| e.to_string())) {
+                    Ok(back) if back.id == s.id && back.description == s.description && back.url == s.url => CaseReport::pass(format!("source {}", id), true, vec!["shipped-source"]),
+                    Ok(back) => CaseReport::fail(format!("source {}", id), "source-roundtrip-differs", json!({"id": id, "back": back.id})),
+                    Err(e) => CaseReport::fail(format!("source {}", id), "source-does-not-roundtrip", json!({"id": id, "error": e})),
+                },
+            };
+            ctx.record_case("shipped-sources", rep, json!({"source": id}));
+        }
+        if f.sources_full.is_empty() {
+            ctx.record_case("shipped-sources", CaseReport::fail("sources", "no-shipped-sources-decoded", json!({})), json!({"sources": 0}));
+        }
     }
     let pins = pinned_ids();
     ctx.put("pinned_identifiers", json!(pins.len()));
